@@ -624,7 +624,7 @@ theorem step_sim (g : Good ds img) (F : Facts ds img) (c : Cfg) (io : IOSt) (c' 
     simp only at hop
     rw [hstep, hop]
     simp only [opcOf, d_ldbi, hld, hl, if_true, toSt, hft rfl]
-  | stai v m' hd hst =>
+  | stai v m' hd hst _ =>
     right
     obtain ⟨f, hf, hb, hft, hstep⟩ := am_step_instr g F c io _ hd rfl
     have hop := found_operand ds _ _ 0 c.i _ f hd hf
@@ -695,7 +695,7 @@ theorem step_sim (g : Good ds img) (F : Facts ds img) (c : Cfg) (io : IOSt) (c' 
     by_cases ha : c.a.toInt < 0
     · simp [ha]
     · rw [if_neg ha, if_neg ha, hft rfl]
-  | brb k hd hk hadr =>
+  | brb k kind n hd hk hadr =>
     right
     obtain ⟨f, hf, hb, hft, hstep⟩ := am_step_instr g F c io _ hd rfl
     have hop := found_operand ds _ _ 0 c.i _ f hd hf
